@@ -78,6 +78,8 @@ def wakeup_paths(chk, m, K, Kconst):
         facts = {"atomic": None, "runq": None, "timerq": None}
         for q, (truth, k) in fib.queue_empty_facts(p, K).items():
             facts[q] = truth
+        if facts.get("_infeasible"):
+            continue            # the same queue found empty and non-empty with nothing in between: no execution takes this path
         is_now = r[0] == "ld" and r[1] == K.kptr("now")
         is_unbounded = r[0] == "b" and r[1] == "add" and strip_casts(r[3])[0] == "ld" and strip_casts(r[3])[1] == K.kptr("now") and r[4][0] == "c"
         is_head = r[0] == "ld" and ptr_parts(r[1])[1] in (K.fibre["duetime"][0] - K.link_off, K.fibre["duetime"][0])
@@ -114,6 +116,8 @@ def wakeup_paths(chk, m, K, Kconst):
                             pass
                 if st and cur:
                     why = "a fibre was dispatched in this pass (kernel.current != NULL) and yielded"
+                elif _head_already_due(p, K):
+                    why = "the head of the timer queue is already due (its due time is not after now): the next pass expires it"
                 elif argev is not None:
                     NOW_BY_ARG.append((argev, pid, p.ret_inst.loc))
                     continue
@@ -254,6 +258,24 @@ def check_main_loop_clock(chk, mp):
                 else:
                     chk.unknown("U4.fresh-clock", sid, "subtrahend %s is not a call of time_now()" % fmt(b)[:60], e.inst.loc)
     chk.expect("U4", "sleep computations in fibre_scheduler_main_loop", n, 1)
+
+
+def _head_already_due(p, K):
+    """A condition of the path says cyclecmp32(<a fibre's duetime>, now) <= 0."""
+    due_off = K.fibre["duetime"][0]
+    for c, taken, inst in p.conds:
+        cc = strip_casts(c)
+        if cc[0] != "icmp" or cc[3][0] != "c" or cc[3][2] != 0:
+            continue
+        x = strip_casts(cc[2])
+        if not (x[0] == "call" and x[1] == "cyclecmp32" and len(x[2]) == 2):
+            continue
+        a, b = strip_casts(x[2][0]), strip_casts(x[2][1])
+        if not (a[0] == "ld" and ptr_parts(a[1])[1] in (due_off, due_off - K.link_off) and b[0] == "ld" and b[1] == K.kptr("now")):
+            continue
+        if (cc[1] == "sle" and taken) or (cc[1] == "sgt" and not taken):
+            return True
+    return False
 
 
 def run(chk):
